@@ -74,6 +74,7 @@ PROPS = {
     "C13": {
         "category": "proof",
         "harness_modes": ["crosscheck"],
+        "depends": [("C28", ["get_binding_config@For#0"])],
         "explanation": "MatchingRule.eval is proved to return exactly 'same deployment, service unset or equal, every port predicate equals str(input value)' "
         "(loop invariant over the predicates); MatchingBindingFilter.get_targets is proved to return exactly the targets admitted by some rule, AS A SEQUENCE in the "
         "declared order, and to raise iff none is admitted; the filter loop of DefaultScheduler.schedule is proved to apply every configured filter, in order, to what "
@@ -151,6 +152,24 @@ PROPS = {
             "the chunking contract on StreamWrapper.read/write is the environment assumption (final: assumed for every implementation)",
             "bytes are modelled as integer sequences; size=None (read to end) variants of TellableStreamWrapper.read/copyfileobj are not covered",
             "A-TARFILE header encode/decode, TarInfo._block and error classes are CPython's (trusted)",
+        ],
+    },
+    "C28": {
+        "category": "proof",
+        "harness_modes": ["crosscheck"],
+        "explanation": "The StreamFlow file is modelled as records (JSON dicts with a fixed key vocabulary; optional keys distinguished from present-but-None). "
+        "Proved for every path, trie and deployment table: WorkflowConfig.propagate returns the attribute of the deepest node on the path that carries it (the binding of the "
+        "path itself or of its nearest bound ancestor), `default` otherwise; WorkflowConfig.get is the exact lookup; _get_workdir returns the deployment's own workdir or "
+        "else the first one along its wraps chain and terminates (decreases on the acyclicity rank); the target loop of get_binding_config builds one Target per declared "
+        "target IN THE DECLARED ORDER, on the declared deployment and service, whose DeploymentConfig.workdir is the chain workdir; Target.__init__ takes its own workdir "
+        "or else the deployment's; get_wraps_config; set_targets (one tree level, the recursion through its own contract): port nodes and everything at or above the "
+        "current level are untouched, every other child carries its own step target or the inherited one. NOT proved (bounded run-time check only): "
+        "WorkflowConfig.put/_process_binding/__init__ (trie construction), _check_stacked_deployments (rejection of cyclic wraps chains; the acyclicity it establishes is the "
+        "precondition wf_wraps of the proofs above), the plain-string form of `wraps`, the equivalence of set_targets with propagate over the whole tree.",
+        "assumptions": [
+            "A-JSON-RECORD dicts with a fixed vocabulary of keys are records; a key that is absent and a key that is not declared are the same",
+            "DeploymentConfig/WrapsConfig constructors are assumed field assignments; os.path/posixpath/tempfile calls in Target.__init__ are uninterpreted",
+            "recursive spec functions nearest/exact/chain_workdir read the heap; they are only used in functions that are proved not to write those fields (frame obligations)",
         ],
     },
 }
